@@ -28,11 +28,11 @@ static Verdict runCase(const HistCase& c, Info& info)
     for (const auto& h : c.history)
     {
         auto batch = buildBatch(h);
-        a.encode(batch.begin(), batch.end(), lib::DataContext{h.minB, h.maxB});
+        encodeVia(a, batch, lib::DataContext{h.minB, h.maxB}, h.overload);
     }
     auto batch = buildBatch(c.last);
-    auto fa = a.encode(batch.begin(), batch.end(), lib::DataContext{c.last.minB, c.last.maxB});
-    auto fb = b.encode(batch.begin(), batch.end(), lib::DataContext{c.last.minB, c.last.maxB});
+    auto fa = encodeVia(a, batch, lib::DataContext{c.last.minB, c.last.maxB}, c.last.overload);
+    auto fb = encodeVia(b, batch, lib::DataContext{c.last.minB, c.last.maxB}, c.last.overload);
     VF_CHECK(fa.size() == fb.size(), "encoder with history produced " << fa.size() << " frames, fresh encoder " << fb.size());
     bool haveDelta = false;
     uint16_t delta = 0;
@@ -87,10 +87,14 @@ static rc::Gen<HistCase> genCase(int tier)
         p.allowEmpty = true;
         int n = *range<int>(0, tier ? 6 : 4);
         for (int i = 0; i < n; ++i)
+        {
             c.history.push_back(*genEncCase(p));
+            c.history.back().overload = *range<uint8_t>(0, 3);
+        }
         p.allowEmpty = false;
         p.boundaryWeight = 8;
         c.last = *genEncCase(p);
+        c.last.overload = *range<uint8_t>(0, 3);
         // bias: continue with the message type / kind the history ended with
         if (!c.history.empty() && !c.history.back().packets.empty() && *range<int>(0, 1) == 0)
         {
